@@ -45,6 +45,9 @@ def fresh(name, sort=I):
     return z3.Const(f"{name}!{next(_fresh)}", sort)
 
 
+_SAME = object()
+
+
 @dataclass
 class SArr:
     term: z3.ExprRef
@@ -58,8 +61,8 @@ class SArr:
     def ndim(self):
         return len(self.shape)
 
-    def with_term(self, term, wr="same"):
-        return SArr(term, self.shape, self.dt, self.elem, self.wr if wr == "same" else wr, self.dtname)
+    def with_term(self, term, wr=_SAME):
+        return SArr(term, self.shape, self.dt, self.elem, self.wr if wr is _SAME else wr, self.dtname)
 
 
 @dataclass
@@ -165,6 +168,7 @@ class Engine:
         self.loop_counter = [0]
         self.entry: Optional[dict] = None
         self.loop_entries: list = []
+        self.iter_entries: list = []
         self.stmt_counts: dict = {}
         self.if_count = 0
         self.ghost_names: set = set()
@@ -234,8 +238,8 @@ class Engine:
                     shape.append(sv)
             dt = self.dtype(t.dtype) if t.dtype else None
             wr = None
-            if t.uninit:
-                wr = z3.K(I, z3.BoolVal(False)) if t.ndim == 1 else z3.K(I, z3.K(I, z3.BoolVal(False)))
+            if t.uninit:    # unknown written-set: a cell may be read only if it is provably written
+                wr = z3.Const(prefix + name + "_wr", asort(t.ndim, "bool"))
             return SArr(term, tuple(shape), dt, t.elem, wr, t.dtype)
         raise OutOfSubset(t.kind)
 
@@ -822,8 +826,7 @@ class Engine:
             a = env[p]
             if not isinstance(a, SArr):
                 raise OutOfSubset("modifies of non-array")
-            na = a.with_term(fresh(p, a.term.sort()),
-                             fresh(p + "_wr", a.wr.sort()) if a.wr is not None else None)
+            na = a.with_term(fresh(p, a.term.sort()))   # written-set kept (it can only grow in the callee)
             post_env[p] = na
             arg = e.args[pnames.index(p)]
             if not isinstance(arg, ast.Name):
@@ -912,6 +915,8 @@ class Engine:
         ctx = {"old": self.entry}
         if self.loop_entries:
             ctx["at_loop"] = self.loop_entries[-1]
+        if self.iter_entries:
+            ctx["at_iter"] = self.iter_entries[-1]
         return ctx
 
     def exec_stmt(self, s, st: State):
@@ -1225,7 +1230,7 @@ class Engine:
                 elif isinstance(v, (SView, SSlice)):
                     hv.vars.pop(n)
                 elif isinstance(v, SArr):
-                    hv.vars.pop(n)
+                    arrays = set(arrays) | {n}
         for n in arrays:
             v = hv.vars.get(n)
             if isinstance(v, SView):
@@ -1286,6 +1291,10 @@ class Engine:
             else:
                 raise OutOfSubset("iteration over this value")
         top = z3.If(lo <= hi, hi, lo)
+        if lp.range_is is not None:
+            rl = to_num(self.ev(ast.parse(lp.range_is[0], mode="eval").body, st, True, self.spec_ctx()))
+            rh = to_num(self.ev(ast.parse(lp.range_is[1], mode="eval").body, st, True, self.spec_ctx()))
+            self.emit("assert", f"loop{ordn}:range-is", z3.And(lo == rl, hi == rh), st.guard, self.c.props)
         for gs in lp.ghost_pre:
             self.exec_ghost(gs, st)
         at_loop = dict(st.vars)
@@ -1334,8 +1343,9 @@ class Engine:
                     self.emit("init", f"for-elem@{self.stmt_label(s)}", self.sel(SArr(arr.wr, arr.shape, None), idx),
                               body.guard, self.c.props)
             body.vars[evar] = v
-        iter_start = dict(body.vars)
+        self.iter_entries.append(dict(body.vars))
         r = self.exec_block(s.body, body)
+        it_env = self.iter_entries.pop()
         ends = [x for x in self.flat(r["normal"]) + r["cont"] if x is not None]
         end = self.merge(ends)
         if end is not None:
@@ -1348,6 +1358,9 @@ class Engine:
             for cl in lp.inv:
                 g = to_bool(self.ev(cl.ast, end, True, ictx))
                 self.emit("inv-pres", f"loop{ordn}:{cl.label}", g, end.guard, cl.props, extra=extra)
+            for cl in lp.iter:
+                g = to_bool(self.ev(cl.ast, end, True, dict(ictx, at_iter=it_env)))
+                self.emit("iter", f"loop{ordn}:{cl.label}", g, end.guard, cl.props, extra=extra)
         self.loop_entries.pop()
         # --- exit
         ex = hv.copy(zand(st.guard, k >= hi))
@@ -1388,10 +1401,13 @@ class Engine:
         # evaluate the condition (may have effects) at the loop head
         head = hv.copy()
         self._pending_i64 = []
+        it_env = dict(hv.vars)
         c = to_bool(self.ev_code(s.test, head))
         self.flush_guarded(head, s)
         body = head.copy(zand(st.guard, c))
+        self.iter_entries.append(it_env)
         r = self.exec_block(s.body, body)
+        self.iter_entries.pop()
         ends = [x for x in self.flat(r["normal"]) + r["cont"] if x is not None]
         end = self.merge(ends)
         if end is not None:
@@ -1404,8 +1420,14 @@ class Engine:
             if var0 is not None:
                 var1 = to_num(self.ev(ast.parse(lp.variant, mode="eval").body, end, True, ictx))
                 self.emit("variant", f"loop{ordn}", z3.And(var0 >= 0, var1 < var0), end.guard, self.c.props)
-        self.loop_entries.pop()
+            for cl in lp.iter:
+                g = to_bool(self.ev(cl.ast, end, True, dict(ictx, at_iter=it_env)))
+                self.emit("iter", f"loop{ordn}:{cl.label}", g, end.guard, cl.props, extra=extra)
         ex = head.copy(zand(st.guard, z3.Not(c)))
+        for cl in lp.exit:
+            g = to_bool(self.ev(cl.ast, ex, True, dict(ictx, at_iter=it_env)))
+            self.emit("exit", f"loop{ordn}:{cl.label}", g, ex.guard, cl.props)
+        self.loop_entries.pop()
         return self.out(self.merge([ex] + r["brk"]), ret=r["ret"], rse=r["rse"])
 
     # ---- lemmas
